@@ -16,7 +16,7 @@ RULE = (
   "case = articulated model whose joints are mostly free/ball (roots and inside chains, mixed with hinge/slide), sites, cameras (all tracking modes), optional mocap body, "
   "damping, optional motors, contacts disabled or a plane+pile scene; integrator in {Euler, implicitfast, implicit, RK4}, dt in [1e-4, 5e-2], initial angular speed scale in "
   "{3, 30, 300, 1000} rad/s, initial free/ball/mocap quaternions scaled by 0.1..10 (unnormalised), random qfrc_applied/xfrc_applied/ctrl redrawn every 25 steps, "
-  "40-200 steps (thorough 200-1000), 1-2 worlds; oracle after EVERY step and after a final forward: each free/ball quaternion of d.qpos has | |q|-1 | <= 1e-5, xquat unit, "
+  "40-200 steps (thorough 200-800), 1-2 worlds; oracle after EVERY step and after a final forward: each free/ball quaternion of d.qpos has | |q|-1 | <= 1e-5, xquat unit, "
   "xmat/ximat/geom_xmat/site_xmat/cam_xmat satisfy |R^T R - I|_F <= 1e-4 and det > 0; when a contact-free world goes non-finite its last <= 64 steps are re-done in lock-step "
   "with MuJoCo C (mj_step from MJWarp's own state): reported only if a single step in a moderate, well-conditioned regime (|qvel| <= 1e3, |qvel|*dt <= 1, |qpos| <= 20, no MuJoCo warning, perturbation-insensitive) deviates by > 2e-2, "
   "otherwise discarded (counted) as diverging physics; contact worlds that go non-finite are not judged; evaluation = one checked (step, world); non-trivial = some free/ball joint had |omega|*dt > 0.1 at a checked finite step"
@@ -26,13 +26,13 @@ ASSUMPTIONS = [
   "a non-finite MJWarp state counts only when a one-step deviation > 2e-2 from mj_step on the same (moderate) state is demonstrated within the last 64 steps; otherwise it is attributed to diverging physics",
   "tolerances 1e-5 (quaternion norm) and 1e-4 (orthogonality), float32",
 ]
-BUDGET = {"quick": dict(examples=288, seconds=150, workers=16), "thorough": dict(examples=2400, seconds=1500, workers=16)}
+BUDGET = {"quick": dict(examples=256, seconds=150, workers=16), "thorough": dict(examples=1600, seconds=1500, workers=16)}
 _CAP = int(OT.NEFC | OT.NJMAX_NNZ | OT.BROADPHASE | OT.NARROWPHASE | OT.CCD | OT.NVMAX | OT.HFIELD | OT.EPA_HORIZON | OT.CONTACT_MATCH)
 _INTEG = ["Euler", "implicitfast", "implicit", "RK4"]
 
 
 def strategy(tier):
-  steps = st.integers(40, 200) if tier == "quick" else st.integers(200, 1000)
+  steps = st.integers(40, 200) if tier == "quick" else st.integers(200, 800)
   return st.fixed_dictionaries(
     dict(
       cfg=gen.cfg_strategy(
